@@ -321,6 +321,8 @@ inductive Act where
   | crash (i : Nat) | restart (i : Nat) | cut (i j : Nat) | heal
   | rpcRestart (i : Nat) (shutdown : Bool) | rpcEndSync (i : Nat) (m : Option Nat)
   | inject (j : Nat) (op : Option Op)          -- a duplicated / stale / forged message handed to the listener of `j`
+  | injectPev (j src p : Nat) (s : Supv.Proc.PState) (ex : Bool) (et : Nat)   -- a duplicated / stale process event
+  | injectInfo (j src : Nat) (snap : List Supv.Proc.Snap)                     -- a duplicated / stale ALL_INFO notification
   | nop
   deriving Repr
 
@@ -339,6 +341,8 @@ def Net.step (g : Net) (now : Nat) (a : Act) : Net × Obs :=
   | .rpcEndSync i m => g.rpcEndSync now i m
   | .inject j (some op) => let (g', e, o) := g.handle now j op; (g', [(j, e, o)])
   | .inject j none => (g, [(j, none, [])])
+  | .injectPev j src p st ex et => (g.applyEvent now j src p st ex et, [(j, none, [])])
+  | .injectInfo j src snap => (g.loadInfo now j src snap, [(j, none, [])])
   | .nop => (g, [])
 
 /-- a schedule: time, action, oracle answers for the instance acting -/
